@@ -226,7 +226,12 @@ class Explorer(object):
                 self.assign(st.target, self.expr(st.value, env), env)
         elif isinstance(st, ast.AugAssign):
             load = _as_load(st.target)
-            v = self.binop(st.op, self.expr(load, env), self.expr(st.value, env), st)
+            cur, inc = self.expr(load, env), self.expr(st.value, env)
+            if getattr(self.port, 'name', 'py') == 'py' and isinstance(st.op, ast.Add) and type(cur) is list and isinstance(inc, (list, tuple)):
+                cur.extend(inc)          # list += iterable extends the list object itself
+                v = cur
+            else:
+                v = self.binop(st.op, cur, inc, st)
             self.assign(st.target, v, env)
         elif isinstance(st, ast.Expr):
             self.expr(st.value, env)
@@ -901,7 +906,7 @@ class Explorer(object):
             if m == 'copy' and not args:
                 return list(recv)
             if m == 'map' and len(args) == 1:
-                return [self.apply(args[0], [x], node) for x in recv]
+                return [self.apply(args[0], [x, i_], node) for i_, x in enumerate(recv)]
             if m == 'entries' and not args:
                 return [[i_, x] for i_, x in enumerate(recv)]
             if m == 'keys' and not args:
@@ -914,14 +919,14 @@ class Explorer(object):
                 return None
             if m in ('findIndex', 'find') and len(args) == 1:
                 for i_, x in enumerate(recv):
-                    if self.truth(self.apply(args[0], [x], node), node):
+                    if self.truth(self.apply(args[0], [x, i_], node), node):
                         return i_ if m == 'findIndex' else x
                 return -1 if m == 'findIndex' else None
             if m in ('some', 'every') and len(args) == 1:
-                ts = [self.truth(self.apply(args[0], [x], node), node) for x in recv]
+                ts = [self.truth(self.apply(args[0], [x, i_], node), node) for i_, x in enumerate(recv)]
                 return any(ts) if m == 'some' else all(ts)
             if m == 'filter' and len(args) == 1:
-                return [x for x in recv if self.truth(self.apply(args[0], [x], node), node)]
+                return [x for i_, x in enumerate(recv) if self.truth(self.apply(args[0], [x, i_], node), node)]
             if m == 'concat' and all(isinstance(a, list) for a in args):
                 out_ = list(recv)
                 for a in args:
